@@ -381,6 +381,16 @@ void vd_install_handlers(void)
     setitimer(ITIMER_PROF, &it, NULL);
 }
 void vd_tick(void) { vd_progress++; }
+/* a number that depends on the content of the case in hand only (not on the order in which TLC's workers emitted the cases): selects the
+ * concretisation variant (which non-zero int stands for TRUE, which naming scheme for left-over keys, ...) reproducibly */
+unsigned long vd_salt(void)
+{
+    static const char *seen; static unsigned long h; const char *p;
+    if (VD.curline == seen && seen) return h;
+    seen = VD.curline; h = 1469598103UL;
+    for (p = VD.curline ? VD.curline : ""; *p; p++) { h ^= (unsigned char)*p; h *= 16777619UL; h &= 0xffffffffUL; }
+    return h;
+}
 
 /* ================================================================== reporting */
 vd_ctx VD;
